@@ -29,8 +29,11 @@ import FluteModel.Lemmas.SessionCodec
       ObjectsBeingTransferred session;
     * expiry (`enable_expired_check`), EXT_TIME, `max_objects_error > 0`, close-session, time-outs / `cleanup`: outside
       the Session model (the theorem is for `recvCfg`: no expiry check, `max_objects_error = 0`);
-    * the object is the Session model's own (`sobj`), not `ObjRecv`: composing with orecv's `receiver_simulation`
-      needs `RecvFull`'s object related to `sobj` call by call (push / attach_fdt / state / cache_control).
+    * the object is the Session model's own (`sobj`), not `ObjRecv`: agent orecv's half (Props/C02Link.lean:
+      `receiver_simulation`, `session_complete_is_exact`, `counters_are_writer_calls`) is proved under `Setting.OK`,
+      genuine histories (`GenEv` / `FileOK`) and the codec contract `CodecDec`, with no step hypothesis left; the
+      COMPOSITION is not done: `RecvFull`'s ObjRecv-based `ObjIface` has to be related to `sobj` call by call
+      (push / attach_fdt / state / cache_control; `objStep .pkt` = `pushObjR` + `finish`, `objStep .att` = `finish ∘ attach`).
 -/
 namespace Flute.Props.C02.Link
 open Flute Flute.Session Flute.Lemmas.Session Flute.Lemmas.SessionRecv
